@@ -193,6 +193,12 @@ fn parse_set_safe_command(command: &mut std::str::SplitN<&str>) -> Result<Reques
         None => -1,
     };
 
+    // -1 means "no version"; anything below is not a version a client can hold (-2 is the
+    // internal marker of a key waiting for conflict resolution)
+    if version < -1 {
+        return Err(String::from("set-safe version must not be negative"));
+    }
+
     let value = match rest.next() {
         Some(value) => value.replace("\n", ""),
         None => return Err(String::from("set-safe must be followed by a key")),
